@@ -91,16 +91,23 @@ def probe_env():
     return env
 
 
-def range_env(lo, hi):
-    key = ("r", lo, hi)
+def range_env(lo, hi, how="subclass"):
+    """the range configured on a subclass, or assigned on a plain instance"""
+    key = ("r", lo, hi, how)
     if key not in _ENV:
         from jsonpath_rfc9535 import JSONPathEnvironment
 
-        class E(JSONPathEnvironment):
-            min_int_index = lo
-            max_int_index = hi
+        if how == "subclass":
+            class E(JSONPathEnvironment):
+                min_int_index = lo
+                max_int_index = hi
 
-        _ENV[key] = E()
+            _ENV[key] = E()
+        else:
+            e = JSONPathEnvironment()
+            e.min_int_index = lo
+            e.max_int_index = hi
+            _ENV[key] = e
     return _ENV[key]
 
 
@@ -143,19 +150,21 @@ def judge(text, verdict, outcome, calls):
     return None
 
 
-def check_one(text, lo=None, hi=None):
+def check_one(text, lo=None, hi=None, how="subclass"):
     if lo is None:
         verdict = rt.classify(text, registry=REGISTRY)
         env = probe_env()
     else:
         verdict = rt.classify(text, imin=lo, imax=hi)
-        env = range_env(lo, hi)
+        env = range_env(lo, hi, how)
     before = CALLS["n"]
     outcome = impl.run(env.compile, text)
     v = judge(text, verdict, outcome, CALLS["n"] - before)
     if v is not None:
         if lo is not None:
             v["case"]["range"] = [lo, hi]
+            if how != "subclass":
+                v["case"]["configured"] = how
         if verdict.cls != "grey" and abnf.in_language(text) != (verdict.cls in ("valid", "ill-typed")):
             raise AssertionError(f"R1/R2 disagree on {text!r}: {verdict}")
     return v, verdict
@@ -163,19 +172,19 @@ def check_one(text, lo=None, hi=None):
 
 def check_case(case):
     r = case.get("range")
-    v, _ = check_one(case["query"], *(r or (None, None)))
+    v, _ = check_one(case["query"], *(r or (None, None)), how=case.get("configured", "subclass"))
     return v
 
 
 def run_shard(desc):
     sh = Shard(PROPERTY)
 
-    def do(text, lo=None, hi=None):
+    def do(text, lo=None, hi=None, how="subclass"):
         sh.states += 1
         sh.transitions += 1
         sh.traces += 1
         sh.evaluations += 1
-        v, verdict = check_one(text, lo, hi)
+        v, verdict = check_one(text, lo, hi, how)
         sh.bump("class_" + verdict.cls)
         if verdict.cls in ("ill-typed", "outside"):
             sh.nontrivial += 1
@@ -229,4 +238,6 @@ def run_shard(desc):
             for i in ints:
                 for q in range_queries(i):
                     do(q, lo, hi)
+                    if (lo, hi) != RANGES[0]:
+                        do(q, lo, hi, "instance")
     return sh
